@@ -15,10 +15,10 @@ impl ProgProperty for C03 {
         "C03"
     }
     fn rule(&self) -> String {
-        "generated programs (wide SCC 40%, structured 30%, bigconst 12%, raw 10%, roaming 5%, deep 3%) x input x width, run by BaseJitCompiler::execute at levels 0..3, compared event-for-event with the reference. For bigconst programs whose canonical run is too long to finish, the JIT is compared with the IR and bytecode interpreters at the same level and blamed only if it is the odd one out (IR = BC != JIT). Non-trivial: the bytecode the JIT compiles (hook) uses stack temporaries (temps >= 12), or keeps a register temporary live across a runtime-calling instruction, or has an immediate outside i32; distinct = distinct (program, input, width). coverage.sets['jit-forms'] lists the instruction-selector arms (opcode x dst kind x src kinds) reached".into()
+        "generated programs (wide SCC 40%, structured 30%, bigconst 12%, raw 10%, roaming 5%, deep 3%) x input x width, run by BaseJitCompiler::execute at levels 0..3, compared event-for-event with the reference. For bigconst and shl programs (an input byte multiplied up to a * 2^k, then a zero test) whose canonical run is too long to finish, the JIT is compared with the IR and bytecode interpreters at the same level and blamed only if it is the odd one out (IR = BC != JIT). Non-trivial: the bytecode the JIT compiles (hook) uses stack temporaries (temps >= 12), or keeps a register temporary live across a runtime-calling instruction, or has an immediate outside i32; distinct = distinct (program, input, width). coverage.sets['jit-forms'] lists the instruction-selector arms (opcode x dst kind x src kinds) reached".into()
     }
     fn assumptions(&self) -> Vec<String> {
-        vec!["secondary oracle (bigconst programs with unknown canonical fate only): differential 2-of-3 vote, cannot detect a defect shared by all three back ends".into()]
+        vec!["secondary oracle (bigconst and shl programs with unknown canonical fate only): differential 2-of-3 vote, cannot detect a defect shared by all three back ends".into()]
     }
     fn cases(&self, tier: Tier) -> u64 {
         match tier {
@@ -54,7 +54,7 @@ impl ProgProperty for C03 {
         if r.fate != Fate::Unknown {
             return None;
         }
-        if c.family != "bigconst" {
+        if c.family != "bigconst" && c.family != "shl" {
             return Some(Outcome::Skip("canonical run exceeds the step limit"));
         }
         // 2-of-3 vote, one child per level triple, short window
@@ -103,7 +103,7 @@ impl ProgProperty for C03 {
             return Some(Outcome::Skip("bigconst: interpreters did not finish in the vote window"));
         }
         stats.class("vote-oracle-cases");
-        stats.class("family:bigconst");
+        stats.class(if c.family == "shl" { "family:shl(vote)" } else { "family:bigconst" });
         Some(Outcome::Pass { nontrivial: true })
     }
     fn nontrivial(&self, _c: &ProgCase, _r: &RefRun, obs: &[Option<Obs>], stats: &mut Stats) -> bool {
@@ -124,6 +124,9 @@ impl ProgProperty for C03 {
             stats.class("immediate-outside-i32")
         }
         temps >= 12 || lac > 0 || imm64
+    }
+    fn probe_upper_bits(&self) -> bool {
+        true
     }
     fn fuzz_target(&self) -> Option<&'static str> {
         Some("prog_jit")
